@@ -1243,7 +1243,7 @@ class Engine:
 
     def assign(self, tgt, val, st, node):
         if isinstance(tgt, ast.Name):
-            if isinstance(val, tuple) and val and val[0] in ("emptylist", "emptydict") and tgt.id in self.c.local_types:
+            if isinstance(val, tuple) and val and val[0] in ("emptylist", "emptydict", "emptyset") and tgt.id in self.c.local_types:
                 val = self.empty_of(self.c.local_types[tgt.id])
             st.env[tgt.id] = val
             return
@@ -1563,6 +1563,7 @@ class Engine:
         envi = {idx_name: i, "_n": V(TInt, ln)}
         envi.update(self.spec_env(body_st))
         self.assume_invs(body_st, spec, envi)
+        body_st.env[idx_name] = i  # ghost: visible to invariants of nested loops
         self.bind_target(s.target, at(i.t), body_st, s)
         for st2, out in self.exec_block(s.body, body_st):
             if out is None or out[0] == "continue":
